@@ -228,6 +228,82 @@ def resolve_candidate(self, candidate: Candidate) -> Tuple[RequirementContainer,
     return (dist_info, True)'''
 
 
+SK["_do_download"] = '''def _do_download(logger: logging.Logger, filename: str, link: Tuple[str, str], session: requests.Session, wheeldir: str) -> Tuple[str, bool]:
+    url, resource = link
+    split_link = resource.split(K0)
+    if len(split_link) > K1:
+        sha = split_link[K2]
+    else:
+        sha = None
+    output_file = os.path.join(wheeldir, filename)
+    if REUSE_OUTER:
+        hasher = sha256()
+        with open(output_file, K3) as handle:
+            while True:
+                block = handle.read(K4)
+                if not block:
+                    break
+                hasher.update(block)
+        if REUSE_INNER:
+            logger.info(K5, output_file)
+            return (output_file, True)
+        logger.debug(K6)
+        os.remove(output_file)
+    else:
+        logger.debug(K7)
+    full_link = urllib.parse.urljoin(url, resource)
+    logger.info(K8, full_link, output_file)
+    if session is None:
+        session = requests
+    response = session.get(full_link, stream=True)
+    with open(output_file, K9) as handle:
+        for block in response.iter_content(K10 * K11):
+            handle.write(block)
+    return (output_file, False)'''
+
+
+def _dl_cond(node: ast.expr) -> str:
+    """The two tests of _do_download that decide whether a file in the wheel directory is reused,
+    as a boolean expression over: a digest is advertised / the file exists / its digest matches."""
+    if isinstance(node, ast.BoolOp) and isinstance(node.op, (ast.And, ast.Or)) and len(node.values) >= 2:
+        c = "DAnd" if isinstance(node.op, ast.And) else "DOr"
+        parts = [_dl_cond(v) for v in node.values]
+        acc = parts[-1]
+        for x in reversed(parts[:-1]):
+            acc = f"({c} {x} {acc})"
+        return acc
+    if isinstance(node, ast.UnaryOp) and isinstance(node.op, ast.Not):
+        return f"(DNot {_dl_cond(node.operand)})"
+    u = ast.unparse(node)
+    table = {"sha is not None": "DHasSha", "sha is None": "(DNot DHasSha)", "sha": "DHasSha",
+             "os.path.exists(output_file)": "DExists", "os.path.isfile(output_file)": "DExists",
+             "hasher.hexdigest() == sha": "DMatch", "sha == hasher.hexdigest()": "DMatch",
+             "hasher.hexdigest() != sha": "(DNot DMatch)", "sha != hasher.hexdigest()": "(DNot DMatch)"}
+    if u in table:
+        return table[u]
+    raise TranslateError(f"_do_download: unrecognised reuse condition `{u}`")
+
+
+def read_do_download() -> Tuple[List[Any], str, str]:
+    fn = copy.deepcopy(T.func(T.parse("req_compile/repos/pypi.py"), "_do_download"))
+    ifs = [st for st in fn.body if isinstance(st, ast.If)]
+    if len(ifs) != 3:
+        raise TranslateError(f"_do_download: expected three top-level if statements, found {len(ifs)}")
+    outer = ifs[1]
+    inner = [st for st in outer.body if isinstance(st, ast.If)]
+    if len(inner) != 1:
+        raise TranslateError("_do_download: expected one if statement in the reuse branch")
+    c_outer, c_inner = _dl_cond(outer.test), _dl_cond(inner[0].test)
+    outer.test = ast.Name(id="REUSE_OUTER", ctx=ast.Load())
+    inner[0].test = ast.Name(id="REUSE_INNER", ctx=ast.Load())
+    text, consts = skeleton(fn)
+    if text.strip() != SK["_do_download"].strip():
+        import difflib
+        d = "\n".join(list(difflib.unified_diff(SK["_do_download"].strip().split("\n"), text.strip().split("\n"), "expected", "current", lineterm=""))[:40])
+        raise TranslateError(f"pypi.py:_do_download: the code's shape changed, the Gallina model no longer transcribes it:\n{d}")
+    return consts, c_outer, c_inner
+
+
 def _fn(mod: ast.AST, name: str) -> ast.AST:
     if "." in name:
         cls, meth = name.split(".")
@@ -401,6 +477,15 @@ def gen_consts() -> Tuple[str, Dict[str, Any]]:
     _need(k[1] == k[2], "the '#' tested and the '#' partitioned on differ")
     d("hash_sep", "ascii", _chr(k[1], "fragment separator"))
     d("hash_repl", "ascii * ascii", f"({_chr(k[3], 'replace')}, {_chr(k[4], 'replace')})")
+    # --- download / reuse of a file already in the wheel directory
+    k, c_outer, c_inner = read_do_download()
+    _need(k[1] == 1 and k[2] == 1, "_do_download: the digest is no longer split_link[1] when len(split_link) > 1")
+    d("dl_sha_sep", "string", T.coq_str(k[0]))
+    _need(isinstance(k[0], str) and len(k[0]) > 0, "_do_download: empty digest separator")
+    out.append("Inductive dl_cond := DHasSha | DExists | DMatch | DNot (c : dl_cond) | DAnd (a b : dl_cond) | DOr (a b : dl_cond).\n")
+    d("dl_reuse_outer", "dl_cond", c_outer)
+    d("dl_reuse_inner", "dl_cond", c_inner)
+    info["dl"] = {"sha_sep": k[0], "outer": c_outer, "inner": c_inner}
     k = read("req_compile/repos/findlinks.py", "FindLinksRepository.resolve_candidate")
     d("fl_hash_prefix", "string", T.coq_str(k[3]))
     read("req_compile/repos/findlinks.py", "_find_all_links")
